@@ -163,6 +163,24 @@ Example C07_example_resume :
   run (sinit V13) [OResume 3; OWrite] = [].
 Proof. vm_compute. repeat split; reflexivity. Qed.
 
+(* the connection Resume makes from a State it accepts: with the guard of generateInternalState (local epoch <> 0)
+   as hypothesis, no application data ever leaves in epoch 0 or unprotected, whatever is done with the connection;
+   the harness resumes from every State the library hands out during epoch 0 (VerifyConnection argument on both
+   sides, ConnectionState() inside GetClientCertificate and between any two datagrams) WITHOUT a serialisation
+   round trip and observes that Resume refuses it *)
+Theorem C07_resumed_appdata_protected :
+  forall (e : N) (ops : list op) (b : bool) (em : emission),
+    e <> 0 -> In (b, em) (run (resumed_start e) ops) -> e_kind em = KApp ->
+    e_enc em = true /\ 1 <= e_epoch em.
+Proof. exact resumed_appdata_protected. Qed.
+Print Assumptions C07_resumed_appdata_protected.
+
+(* the guard is needed (witness): from a State of local epoch 0 the first Write leaves in an epoch-0 record *)
+Theorem C07_resumed_guard_needed :
+  run (resumed_start 0) [OWrite] = [(true, mkE KApp 0 true)].
+Proof. exact resumed_guard_needed. Qed.
+Print Assumptions C07_resumed_guard_needed.
+
 Example C07_example_exporter :
   ~ derives K0 (exporter12 (ms12 (TSec 1) (TPub 10) (TPub 11)) (TPub 5) (TPub 10) (TPub 11)).
 Proof. exact K0_exporter12_underivable. Qed.
